@@ -134,10 +134,8 @@ def load_csv(
     # dict                                  dict of fields got from current read line
     # typing.Tuple[dict, str]               dict of fields got from current read line, current read line
 
-    ## header_is_mandatory
-    if header_is_mandatory is None:
-        header_is_mandatory = False
-    elif not isinstance(header_is_mandatory, bool):
+    ## header_is_mandatory (None is resolved after the LEGACY contains_header branch below)
+    if header_is_mandatory is not None and not isinstance(header_is_mandatory, bool):
         raise SyntaxError(f"Not expectable value in header_is_mandatory='{header_is_mandatory}'. Should be bool or None")
 
     ## column_names
@@ -176,6 +174,8 @@ def load_csv(
         raise SyntaxError(f"Not expectable type of {type(contains_header)} contains_header='{contains_header}'."
                           " Should be str (first column name) or list/tuple (mandatory column names) or bool (LEGACY) or None"
         )
+    if header_is_mandatory is None:
+        header_is_mandatory = False
 
 
     ## process_field
